@@ -405,7 +405,7 @@ type c03Act struct {
 
 type c03Call struct {
 	dur     time.Duration
-	outcome int // 0 ok, 1 transient, 2 permanent
+	outcome int // 0 ok, 1 transient, 2 permanent, 3 partial (retryable error naming a sub-list of the items as undelivered)
 }
 
 type c03Case struct {
@@ -447,6 +447,7 @@ func (c *c03Cfg) options(host *component.Host, st *c03Storage) ([]Option, error)
 			// persistent queues sized by items exist in the code (queue-size snapshots in storage) although Validate
 			// restricts configuration files to the requests sizer: validate everything else
 			vq.Sizer = request.SizerTypeRequests
+			vq.Batch = nil // `batch` wants an items/bytes sizer, `storage` the requests sizer: the combination exists only in code
 		}
 		if err := vq.Validate(); err != nil {
 			return nil, err
@@ -514,9 +515,17 @@ func c03Gen(c int) *c03Case {
 			cfg.capacity = int64(8 + rnd.IntN(60))
 			cs.failSet = rnd.IntN(2) == 0
 		}
-	case 6: // persistent queue + legacy batcher
+	case 6: // persistent queue + batcher: legacy WithBatcher, or sending_queue::batch (items-sized queue)
 		cfg.persistent = true
 		cfg.batch = 2
+		if rnd.IntN(2) == 0 {
+			cfg.batch = 1
+			cfg.sizer = "items"
+			cfg.capacity = int64(20 + rnd.IntN(80))
+			if rnd.IntN(2) == 0 {
+				cfg.capacity = 10000
+			}
+		}
 		splitty = rnd.IntN(3) != 0
 	case 7: // wait_for_result, or the legacy batcher without a queue (also waits for the result)
 		if rnd.IntN(2) == 0 {
@@ -571,7 +580,7 @@ func c03Gen(c int) *c03Case {
 		cfg.timeout = []time.Duration{0, 2 * time.Second}[rnd.IntN(2)]
 	}
 	cfg.signal = []int{c03SigLogs, c03SigLogs, c03SigTraces, c03SigMetrics}[rnd.IntN(4)]
-	cfg.wrap = rnd.IntN(4) != 0
+	cfg.wrap = rnd.IntN(4) != 0 || cfg.batch != 0 // batching: always observable, so that every returned trace is replayed through the LTS
 	// actions
 	nSend := 1 + rnd.IntN(12)
 	t := time.Duration(0)
@@ -662,7 +671,7 @@ func c03Gen(c int) *c03Case {
 			continue
 		}
 		if rnd.IntN(100) < failPct {
-			call.outcome = 1 + rnd.IntN(3)/2 // transient twice as likely as permanent
+			call.outcome = []int{1, 1, 2, 3}[rnd.IntN(4)] // transient, permanent, partial
 			if splitty {
 				call.outcome = 1 + rnd.IntN(2)
 			}
@@ -723,6 +732,21 @@ func c03Corpus() []*c03Case {
 		{cfg: c03Cfg{queue: false, sizer: "requests", capacity: 1, consumers: 1, retry: true, initial: time.Second},
 			acts:    []c03Act{send(0, 1, 2), send(ms, 2, 3), sd(500 * ms)},
 			backend: []c03Call{{0, 1}, {0, 1}, {0, 1}, {0, 1}, {0, 1}, {0, 1}, {0, 1}, {0, 1}, {0, 1}, {0, 1}, {0, 1}, {0, 1}}},
+		// partial failures: the retry carries only the undelivered sub-list (Request.OnError); counters must use the items read
+		// before the first attempt
+		{cfg: c03Cfg{queue: true, sizer: "requests", capacity: 100, consumers: 1, retry: true, initial: 10 * ms, wrap: true},
+			acts: []c03Act{send(0, 1, 6), send(ms, 2, 4), sd(time.Second)}, backend: []c03Call{{0, 3}, {0, 3}, {0, 0}, {0, 3}, {0, 2}}},
+		{cfg: c03Cfg{queue: true, sizer: "items", capacity: 1000, consumers: 1, batch: 1, flushTO: 30 * ms, minSize: 5, maxSize: 0, retry: true, initial: 10 * ms, wrap: true, signal: c03SigMetrics},
+			acts: []c03Act{send(0, 1, 3), send(ms, 2, 4), sd(time.Second)}, backend: []c03Call{{0, 3}, {0, 3}, {0, 0}}},
+		// persistent queue + sending_queue::batch (items-sized): a partial batch is parked (min never reached, 1 h flush timeout) when
+		// Shutdown is requested and the backend fails the final flush with the retry sender stopped: the requests stay stored
+		{cfg: c03Cfg{queue: true, persistent: true, sizer: "items", capacity: 1000, consumers: 1, batch: 1, flushTO: time.Hour, minSize: 40,
+			retry: true, initial: time.Second, wrap: true},
+			acts: []c03Act{send(0, 1, 3), send(ms, 2, 3), send(2*ms, 3, 3), sd(10 * ms)}, backend: []c03Call{{0, 1}, {0, 1}}},
+		// same configuration, split by max_size with mixed outcomes
+		{cfg: c03Cfg{queue: true, persistent: true, sizer: "items", capacity: 1000, consumers: 1, batch: 1, flushTO: time.Hour, minSize: 3, maxSize: 3,
+			retry: true, initial: time.Second, wrap: true, signal: c03SigTraces},
+			acts: []c03Act{send(0, 1, 8), sd(10 * ms)}, backend: []c03Call{{0, 2}, {0, 0}, {0, 1}, {0, 1}}},
 		// shutdown exactly when the flush timer fires
 		{cfg: c03Cfg{queue: true, sizer: "items", capacity: 10000, consumers: 1, batch: 1, flushTO: 30 * ms, minSize: 40},
 			acts: []c03Act{send(0, 1, 3), sd(30 * ms), send(30*ms, 2, 2)}, backend: []c03Call{{5 * ms, 0}}},
@@ -767,7 +791,7 @@ func (r *c03Run) log(e c03Ev) {
 	r.mu.Unlock()
 }
 
-func c03Exec(cs *c03Case, set exporter.Settings, beforeShutdown func(run *c03Run)) *c03Run {
+func c03Exec(cs *c03Case, set exporter.Settings, probe func(run *c03Run)) *c03Run {
 	run := &c03Run{start: time.Now()}
 	bg := context.Background()
 	synctest.Wait()
@@ -815,6 +839,18 @@ func c03Exec(cs *c03Case, set exporter.Settings, beforeShutdown func(run *c03Run
 			case 2:
 				err = consumererror.NewPermanent(errors.New("permanent"))
 				perm = true
+			case 3:
+				// partial failure: the retry sender narrows the request to the named items (Request.OnError)
+				rest := c03PartialRest(k, ids)
+				base := errors.New("partially delivered")
+				switch cs.cfg.signal {
+				case c03SigTraces:
+					err = consumererror.NewTraces(base, c03Traces(rest))
+				case c03SigMetrics:
+					err = consumererror.NewMetrics(base, c03Metrics(rest))
+				default:
+					err = consumererror.NewLogs(base, c03Logs(rest))
+				}
 			}
 		}
 		run.log(c03Ev{kind: "ee", id: k, failed: err != nil, perm: perm})
@@ -832,6 +868,7 @@ func c03Exec(cs *c03Case, set exporter.Settings, beforeShutdown func(run *c03Run
 		return run
 	}
 	sendCtx, cancelSends := context.WithCancel(bg)
+	var probeMu sync.Mutex
 	var wg sync.WaitGroup
 	shutDone := make(chan struct{})
 	for _, a := range cs.acts {
@@ -848,8 +885,10 @@ func c03Exec(cs *c03Case, set exporter.Settings, beforeShutdown func(run *c03Run
 			}()
 			time.Sleep(a.at)
 			if a.shutdown {
-				if beforeShutdown != nil {
-					beforeShutdown(run)
+				if probe != nil {
+					probeMu.Lock() // a probe of a send in the same instant may be running
+					probe(run)
+					probeMu.Unlock()
 				}
 				if cs.failSet {
 					st.mu.Lock()
@@ -865,6 +904,11 @@ func c03Exec(cs *c03Case, set exporter.Settings, beforeShutdown func(run *c03Run
 			ids := make([]int, a.n)
 			for j := range ids {
 				ids[j] = a.rid*100 + j
+			}
+			if probe != nil && a.rid%2 == 0 && probeMu.TryLock() {
+				// observation point in the middle of the run (quiescent: the probe waits until every other goroutine is blocked)
+				probe(run)
+				probeMu.Unlock()
 			}
 			run.log(c03Ev{kind: "ss", id: a.rid, ids: ids})
 			e := built.consume(sendCtx, ids)
@@ -950,6 +994,47 @@ func c03Exec(cs *c03Case, set exporter.Settings, beforeShutdown func(run *c03Run
 	return run
 }
 
+// c03PartialRest: which items a partially failed call reports as undelivered (a non-empty sub-list, proper when possible)
+func c03PartialRest(call int, ids []int) []int {
+	n := len(ids)
+	if n < 2 {
+		return ids
+	}
+	switch call % 3 {
+	case 0:
+		return ids[n/2:]
+	case 1:
+		return ids[:(n+1)/2]
+	default:
+		return ids[1:]
+	}
+}
+
+// c03Roots: the first call of the flight (chain of attempts) every call belongs to. Item ids are unique and a retry carries a
+// sub-list of the previous attempt, so the flight of a call is the first call that contained (any of) its items.
+func c03Roots(evs []c03Ev) map[int]int {
+	first := map[int]int{}
+	root := map[int]int{}
+	for _, e := range evs {
+		if e.kind != "es" {
+			continue
+		}
+		r := e.id
+		if len(e.ids) > 0 {
+			if f, ok := first[e.ids[0]]; ok {
+				r = f
+			}
+		}
+		root[e.id] = r
+		for _, x := range e.ids {
+			if _, ok := first[x]; !ok {
+				first[x] = r
+			}
+		}
+	}
+	return root
+}
+
 // c03RetriesLeft: for every failed call, whether the retry sender (had it not been stopped) would have scheduled another
 // attempt: the elapsed-time budget, counted from the flight's first call, was not exhausted by the next back-off delay.
 // The delay comes from the real back-off implementation with the case's parameters (randomization factor 0).
@@ -962,19 +1047,18 @@ func c03RetriesLeft(cs *c03Case, evs []c03Ev) map[int]bool {
 		first time.Duration
 		bo    *backoff.ExponentialBackOff
 	}
-	flights := map[string]*fl{}
-	callKey := map[int]string{}
+	roots := c03Roots(evs)
+	flights := map[int]*fl{}
 	for _, e := range evs {
 		switch e.kind {
 		case "es":
-			k := c03Join(e.ids)
-			callKey[e.id] = k
+			k := roots[e.id]
 			if flights[k] == nil {
 				flights[k] = &fl{first: e.t, bo: &backoff.ExponentialBackOff{
 					InitialInterval: cs.cfg.initial, RandomizationFactor: 0, Multiplier: 1.5, MaxInterval: 5 * time.Second}}
 			}
 		case "ee":
-			f := flights[callKey[e.id]]
+			f := flights[roots[e.id]]
 			if f == nil || !e.failed || e.perm {
 				continue
 			}
@@ -1126,11 +1210,12 @@ func c03Judge(cs *c03Case, run *c03Run) c03Verdict {
 	// only have ended because the shutdown interrupted it: it has not finished export, so its items must still be stored
 	if cs.cfg.persistent && cs.cfg.retry && reqAt >= 0 {
 		left := c03RetriesLeft(cs, run.evs)
-		lastCall := map[string]int{}
+		roots := c03Roots(run.evs)
+		lastCall := map[int]int{}
 		callIDs := map[int][]int{}
 		for _, e := range run.evs[:end] {
 			if e.kind == "es" {
-				lastCall[c03Join(e.ids)] = e.id
+				lastCall[roots[e.id]] = e.id
 				callIDs[e.id] = e.ids
 			}
 		}
@@ -1214,6 +1299,8 @@ func c03EmitTrace(out *vOut, cs *c03Case, run *c03Run) {
 			out.Linef("tr shutret %d", vB(e.failed))
 		case "uac":
 			out.Linef("tr uac %s", e.s)
+		case "gauge":
+			out.Linef("tr gauge %s", e.s)
 		default:
 			out.Linef("tr %s", e.kind)
 		}
